@@ -48,11 +48,15 @@ func settingsFieldName(v ssa.Value) string {
 	return f.Name()
 }
 
+// valueSubst: while textOrigin looks into a text helper, the arguments its parameters stand for.
+var valueSubst = map[*ssa.Parameter]ssa.Value{}
+
 // textOrigin describes where a string used in a name comparison comes from.
 func textOrigin(v ssa.Value, params map[*ssa.Parameter]string, depth int) string {
 	if depth > 8 {
 		return "?"
 	}
+	v = throughCells(v)
 	switch x := v.(type) {
 	case *ssa.Parameter:
 		if o, ok := params[x]; ok {
@@ -67,6 +71,45 @@ func textOrigin(v ssa.Value, params map[*ssa.Parameter]string, depth int) string
 		if lk, ok := x.Tuple.(*ssa.Lookup); ok && x.Index == 0 {
 			return "lookup(" + settingsFieldName(lk.X) + "," + textOrigin(lk.Index, params, depth+1) + ")"
 		}
+		// first result of a helper of the package that returns (string, error): what it returns on success
+		if c, ok := x.Tuple.(*ssa.Call); ok && x.Index == 0 {
+			if sc := staticCallee(c); sc != nil && fnPkgKey(sc) == "exec" && sc.Signature.Results().Len() == 2 && len(sc.Blocks) > 0 {
+				var rets []ssa.Value
+				allInstrs(sc, func(in ssa.Instruction) {
+					if r, ok := in.(*ssa.Return); ok && len(r.Results) == 2 && isNilConst(r.Results[1]) {
+						rets = append(rets, r.Results[0])
+					}
+				})
+				if len(rets) == 1 {
+					saved := map[*ssa.Parameter]ssa.Value{}
+					for i, a := range c.Call.Args {
+						if i < len(sc.Params) {
+							saved[sc.Params[i]] = valueSubst[sc.Params[i]]
+							valueSubst[sc.Params[i]] = a
+						}
+					}
+					// string parameters of the helper are described by the caller's argument
+					p2 := map[*ssa.Parameter]string{}
+					for k, v := range params {
+						p2[k] = v
+					}
+					for i, a := range c.Call.Args {
+						if i < len(sc.Params) && isStringType(a.Type()) {
+							p2[sc.Params[i]] = textOrigin(a, params, depth+1)
+						}
+					}
+					o := textOrigin(rets[0], p2, depth+1)
+					for p, v := range saved {
+						if v == nil {
+							delete(valueSubst, p)
+						} else {
+							valueSubst[p] = v
+						}
+					}
+					return o
+				}
+			}
+		}
 	case *ssa.Lookup:
 		return "lookup(" + settingsFieldName(x.X) + "," + textOrigin(x.Index, params, depth+1) + ")"
 	case *ssa.Call:
@@ -78,7 +121,11 @@ func textOrigin(v ssa.Value, params map[*ssa.Parameter]string, depth int) string
 		case "LiteralString":
 			return textOrigin(x.Call.Args[0], params, depth+1)
 		case "GetTChildI":
-			if k, ok := constInt(x.Call.Args[1]); ok {
+			idx := x.Call.Args[1]
+			if p, isParam := idx.(*ssa.Parameter); isParam && valueSubst[p] != nil {
+				idx = valueSubst[p]
+			}
+			if k, ok := constInt(idx); ok {
 				return fmt.Sprintf("T#%d", k)
 			}
 		case "GetString":
@@ -87,11 +134,18 @@ func textOrigin(v ssa.Value, params map[*ssa.Parameter]string, depth int) string
 			// left extent of children[j]
 			if le, ok := x.Call.Args[1].(*ssa.Call); ok && len(le.Call.Args) >= 1 {
 				rcv := le.Call.Args[0]
-				if ld, ok := rcv.(*ssa.UnOp); ok {
-					rcv = ld.X
-					if ld2, ok := rcv.(*ssa.UnOp); ok {
-						rcv = ld2.X
+				// the receiver is children[j] (a pointer element, possibly dereferenced for a value receiver), also when
+				// it reaches a text helper as a parameter
+				for i := 0; i < 4; i++ {
+					if p, isParam := rcv.(*ssa.Parameter); isParam && valueSubst[p] != nil {
+						rcv = valueSubst[p]
+						continue
 					}
+					if ld, ok := rcv.(*ssa.UnOp); ok && ld.Op == token.MUL {
+						rcv = ld.X
+						continue
+					}
+					break
 				}
 				if ia, ok := rcv.(*ssa.IndexAddr); ok {
 					if k, ok := constInt(ia.Index); ok {
@@ -102,6 +156,42 @@ func textOrigin(v ssa.Value, params map[*ssa.Parameter]string, depth int) string
 			return "extents?"
 		case "TrimSpace", "TrimPrefix":
 			return textOrigin(x.Call.Args[0], params, depth+1)
+		}
+		// a text helper of the package: the origin of what it returns, with its parameters read through the call
+		if fnPkgKey(sc) == "exec" && sc.Signature.Results().Len() == 1 && isStringType(sc.Signature.Results().At(0).Type()) && len(sc.Blocks) > 0 {
+			var rets []ssa.Value
+			allInstrs(sc, func(in ssa.Instruction) {
+				if r, ok := in.(*ssa.Return); ok {
+					rets = append(rets, r.Results[0])
+				}
+			})
+			if len(rets) == 1 {
+				saved := map[*ssa.Parameter]ssa.Value{}
+				for i, a := range x.Call.Args {
+					if i < len(sc.Params) {
+						saved[sc.Params[i]] = valueSubst[sc.Params[i]]
+						valueSubst[sc.Params[i]] = a
+					}
+				}
+				p2 := map[*ssa.Parameter]string{}
+				for k, v := range params {
+					p2[k] = v
+				}
+				for i, a := range x.Call.Args {
+					if i < len(sc.Params) && isStringType(a.Type()) {
+						p2[sc.Params[i]] = textOrigin(a, params, depth+1)
+					}
+				}
+				o := textOrigin(rets[0], p2, depth+1)
+				for p, v := range saved {
+					if v == nil {
+						delete(valueSubst, p)
+					} else {
+						valueSubst[p] = v
+					}
+				}
+				return o
+			}
 		}
 	}
 	return "?"
@@ -244,7 +334,7 @@ func checkC11(w *World) {
 	} else {
 		w.undecided(P, "R11.2", "exec.GetQName", 0, "not found")
 	}
-	w.floor(P, "R11.2", 8)
+	w.floorSites(P, "R11.2", 8)
 
 	// R11.3
 	w.nameTestGuards(P, f, r)
@@ -465,48 +555,51 @@ func (w *World) nameTestGuards(P string, f *Facts, r *Roles) {
 			w.undecided(P, "R11.3", "name test "+nt, h.Pos, "unexpected production shape "+a.String())
 			continue
 		}
-		// find the filtering function: the closure member with a NodeSet append
-		var appends []struct {
-			call   *ssa.Call
-			fn     *ssa.Function
-			params map[*ssa.Parameter]string
+		// the ways the filter keeps a node, with the conditions collected across helpers and predicate literals
+		sites := w.keepSites(h.Fn, r)
+		// where the strings that reach parameters of the functions involved come from (callers first)
+		params := map[*ssa.Parameter]string{}
+		scopeFns := map[*ssa.Function]bool{h.Fn: true}
+		for _, ks := range sites {
+			for _, g := range ks.Fns {
+				scopeFns[g] = true
+			}
 		}
-		for _, fn := range w.handlerClosure(h.Fn) {
-			params := map[*ssa.Parameter]string{}
-			if fn != h.Fn {
-				// map parameters through the call in the handler
-				allInstrs(h.Fn, func(in ssa.Instruction) {
+		for g := range staticReach(h.Fn, func(x *ssa.Function) bool { return fnPkgKey(x) == "exec" && x != r.ExecContext }) {
+			scopeFns[g] = true
+		}
+		for round := 0; round < 3; round++ {
+			for g := range scopeFns {
+				allInstrs(g, func(in ssa.Instruction) {
 					c, ok := in.(*ssa.Call)
-					if !ok || staticCallee(c) != fn {
+					if !ok {
+						return
+					}
+					callee := staticCallee(c)
+					if callee == nil || !scopeFns[callee] || callee == h.Fn {
 						return
 					}
 					for i, arg := range c.Call.Args {
-						if i < len(fn.Params) && isStringType(arg.Type()) {
-							params[fn.Params[i]] = textOrigin(arg, nil, 0)
+						if i < len(callee.Params) && isStringType(arg.Type()) {
+							if o := textOrigin(arg, params, 0); o != "?" && !strings.HasPrefix(o, "param:") {
+								params[callee.Params[i]] = o
+							}
 						}
 					}
 				})
 			}
-			allInstrs(fn, func(in ssa.Instruction) {
-				c, ok := in.(*ssa.Call)
-				if !ok {
-					return
-				}
-				if b, ok := c.Call.Value.(*ssa.Builtin); ok && b.Name() == "append" && types.Identical(c.Type(), r.NodeSet) {
-					appends = append(appends, struct {
-						call   *ssa.Call
-						fn     *ssa.Function
-						params map[*ssa.Parameter]string
-					}{c, fn, params})
-				}
-			})
 		}
 		n := 0
-		for _, ap := range appends {
+		for _, ks := range sites {
+			if ks.Err != "" {
+				w.undecided(P, "R11.3", "name test "+nt, ks.Append.Pos(), ks.Err)
+				n++
+				continue
+			}
 			gotSpace, gotLocal := "", ""
 			nsArm := false
 			bad := ""
-			for _, at := range guardAtoms(ap.call.Block()) {
+			for _, at := range ks.Atoms {
 				if ex, ok := at.V.(*ssa.Extract); ok && ex.Index == 1 && at.Pol {
 					if ta, ok := ex.Tuple.(*ssa.TypeAssert); ok {
 						if n, _ := nodeIface(ta.AssertedType); n != nil && n.Obj().Name() == "Namespace" {
@@ -520,11 +613,11 @@ func (w *World) nameTestGuards(P string, f *Facts, r *Roles) {
 				}
 				side := func(x, y ssa.Value) bool {
 					if _, ok := isMethodCall(x, "Space"); ok {
-						gotSpace = textOrigin(y, ap.params, 0)
+						gotSpace = textOrigin(y, params, 0)
 						return true
 					}
 					if _, ok := isMethodCall(x, "Local"); ok {
-						gotLocal = textOrigin(y, ap.params, 0)
+						gotLocal = textOrigin(y, params, 0)
 						return true
 					}
 					return false
@@ -546,7 +639,7 @@ func (w *World) nameTestGuards(P string, f *Facts, r *Roles) {
 				return s
 			}
 			ok := bad == "" && norm(gotSpace) == wantSpace && norm(gotLocal) == wantLocal
-			w.check(P, "R11.3", "name test "+nt, ap.call.Pos(), ok, fmt.Sprintf("`%s`: node kept under Space()==[%s] Local()==[%s]; required Space()==[%s] Local()==[%s] %s", a.String(), gotSpace, gotLocal, wantSpace, wantLocal, bad))
+			w.check(P, "R11.3", "name test "+nt, ks.Append.Pos(), ok, fmt.Sprintf("`%s`: node kept under Space()==[%s] Local()==[%s]; required Space()==[%s] Local()==[%s] %s", a.String(), gotSpace, gotLocal, wantSpace, wantLocal, bad))
 		}
 		if n == 0 {
 			w.undecided(P, "R11.3", "name test "+nt, h.Pos, "no filtering append found")
